@@ -170,6 +170,17 @@ type gateMsg struct {
 	res  string // raw JSON result, or
 	code int    // error code (non-zero) with
 	msg  string
+	merr bool // the handler SUCCEEDS with a value whose MarshalJSON fails with the coded error (code, msg)
+}
+
+// badMarshaler is a handler result that cannot be marshalled: its MarshalJSON reports a coded error.
+type badMarshaler struct {
+	code int
+	msg  string
+}
+
+func (b badMarshaler) MarshalJSON() ([]byte, error) {
+	return nil, &jrpc2.Error{Code: jrpc2.Code(b.code), Message: b.msg}
 }
 
 type srvRun struct {
@@ -225,6 +236,9 @@ func (r *srvRun) handler(ctx context.Context, req *jrpc2.Request) (any, error) {
 	r.log.obs("start\t%s\t%s", hexf([]byte(p)), b01(ctx.Err() != nil))
 	m := <-g
 	r.log.obs("gate\t%s\t%s", hexf([]byte(p)), b01(ctx.Err() != nil))
+	if m.merr {
+		return badMarshaler{m.code, m.msg}, nil
+	}
 	if m.code != 0 {
 		return nil, &jrpc2.Error{Code: jrpc2.Code(m.code), Message: m.msg}
 	}
@@ -342,7 +356,11 @@ func (r *srvRun) gate(p string, m gateMsg) {
 		}
 	}
 	r.mu.Unlock()
-	if m.code == 0 && !json.Valid([]byte(m.res)) {
+	if m.merr {
+		// a result whose MarshalJSON fails: the same as the handler failing with the marshalling error
+		_, merr := json.Marshal(badMarshaler{m.code, m.msg})
+		r.log.item("env\tgate\t%s\terr\t%d\t%s", hexf([]byte(p)), int(jrpc2.ErrorCode(merr)), hexf([]byte(merr.Error())))
+	} else if m.code == 0 && !json.Valid([]byte(m.res)) {
 		// the handler returns a value json.Marshal rejects: by the library's contract this is the
 		// same as the handler failing with that marshalling error (code by ErrorCode)
 		_, merr := json.Marshal(json.RawMessage(m.res))
